@@ -126,10 +126,22 @@ def run_cli(chk, tier, r):
         open(rf, "w").write("rule t { condition: %s }\n" % cond)
         p = subprocess.run([b["yara"], "-d", "v=" + v, rf, data], capture_output=True, text=True, timeout=30)
         ok = p.returncode == 0 and p.stdout.split()[:1] == ["t"]
+        argv = ["yara", "-d", "v=" + v, "<rule>", "<3-byte file>"]
+        if ok:
+            # the same definition given to COMPILED rules (other branch of define_external_variables): the variable is declared
+            # with a placeholder of the same type by yarac, the value comes from `yara -C -d`
+            ph = {"int": "0", "flt": "0.5", "bool": "false" if cls.endswith("1") else "true", "str": "placeholder"}[kind]
+            rc_ = os.path.join(d, "r%d.yarc" % i)
+            pc = subprocess.run([b["yarac"], "-d", "v=" + ph, rf, rc_], capture_output=True, text=True, timeout=30)
+            if pc.returncode == 0:
+                p = subprocess.run([b["yara"], "-C", "-d", "v=" + v, rc_, data], capture_output=True, text=True, timeout=30)
+                ok = p.returncode == 0 and p.stdout.split()[:1] == ["t"]
+                argv = ["yarac -d v=%s <rule> <out>; yara" % ph, "-C", "-d", "v=" + v, "<out>", "<3-byte file>"]
+                hist["compiled-path"] = hist.get("compiled-path", 0) + 1
         if not ok and nviol < 6:
             chk.violation("cli_%d.json" % nviol, {"kind": "command-line external variable is not typed / valued like the literal it spells", "engine": "extcli",
                                                   "value": v, "expected_class": cls, "rule": "rule t { condition: %s }" % cond,
-                                                  "argv": ["yara", "-d", "v=" + v, "<rule>", "<3-byte file>"], "rc": p.returncode, "stdout": p.stdout[-300:], "stderr": p.stderr[-300:]})
+                                                  "argv": argv, "rc": p.returncode, "stdout": p.stdout[-300:], "stderr": p.stderr[-300:]})
             nviol += 1
     chk.cov["cli_typing"] = {"values": len(vals), "classes": hist, "violations": nviol}
     return nviol > 0
